@@ -277,6 +277,21 @@ func (*c04) Impl(c Case) []string {
 			case "badwrite":
 				off, _ := strconv.ParseInt(t[2], 10, 64)
 				data, _ := untok(t[3])
+				// what the registry says the upload holds, asked before and after: a refused write "does not alter the upload"
+				// (through a unifier: in neither member - seed C04-12 - where asking fails once the members disagree)
+				probe := func() string {
+					if u.shim != nil { // the probe's own backend calls are not part of the script's log
+						n := len(u.shim.log)
+						defer func() { u.shim.log = u.shim.log[:n] }()
+					}
+					pw, err := u.reg.PushBlobChunkedResume(ctx, u.repo, u.w.ID(), -1, u.w.ChunkSize())
+					if err != nil {
+						return "probe-failed:" + errClass(err)
+					}
+					defer pw.Close()
+					return strconv.FormatInt(pw.Size(), 10)
+				}
+				before := probe()
 				w, err := u.reg.PushBlobChunkedResume(ctx, u.repo, u.w.ID(), off, u.w.ChunkSize())
 				if err != nil {
 					return "err " + errClass(err)
@@ -285,6 +300,9 @@ func (*c04) Impl(c Case) []string {
 					// a caller that simply tries again gets the same refusal: being refused once is not a licence
 					if _, err2 := w.Write([]byte(data)); err2 == nil {
 						return "err " + errClass(err) + " but accepted when repeated"
+					}
+					if after := probe(); after != before {
+						return "err " + errClass(err) + " but the upload changed: " + before + " -> " + after
 					}
 					return "err " + errClass(err)
 				}
@@ -470,7 +488,9 @@ func (*c04) Oracle(c Case, impl []string) []Failure {
 				written = append(written, data...)
 			}
 		case "badwrite":
-			if got != "err RANGE_INVALID" {
+			if strings.Contains(got, "but the upload changed") {
+				fail("up-refused-write-altered-upload", "wrong_offset_refused", "err RANGE_INVALID and an upload that holds what it held")
+			} else if got != "err RANGE_INVALID" {
 				fail("up-wrong-offset-accepted", "wrong_offset_refused", "err RANGE_INVALID")
 			}
 		case "badcommit":
